@@ -145,6 +145,24 @@ class Ctx:
             return rc == 0, out + out2
 
     # ---- translators -----------------------------------------------------------------------
+    @staticmethod
+    def _generate(cmd, out_path):
+        """run a translator into a temporary file and move it over the generated module only when the content differs:
+        another check running at the same time (its `lake build` holds another lock) never reads a half-written module, and
+        an unchanged module keeps its time stamp"""
+        tmp = '%s.tmp.%d' % (out_path, os.getpid())
+        rc, out = sh(cmd + [tmp])
+        try:
+            if rc == 0:
+                new = open(tmp, 'rb').read()
+                old = open(out_path, 'rb').read() if os.path.exists(out_path) else None
+                if new != old:
+                    os.replace(tmp, out_path)
+        finally:
+            if os.path.exists(tmp):
+                os.remove(tmp)
+        return rc, out
+
     def translate_registry(self):
         os.makedirs(GEN_DIR, exist_ok=True)
         dump = os.path.join(SCRATCH, 'registry.dump')
@@ -153,15 +171,15 @@ class Ctx:
             return False, out
         with Lock('gen'):
             open(dump, 'w', encoding='utf-8').write(out)
-            rc, out = sh([sys.executable, os.path.join(VERIF, 'translators', 'registry.py'), dump,
-                          os.path.join(GEN_DIR, 'Registry.lean')])
+            rc, out = self._generate([sys.executable, os.path.join(VERIF, 'translators', 'registry.py'), dump],
+                                     os.path.join(GEN_DIR, 'Registry.lean'))
         return rc == 0, out
 
     def translate_diag(self):
         os.makedirs(GEN_DIR, exist_ok=True)
         with Lock('gen'):
-            rc, out = sh([sys.executable, os.path.join(VERIF, 'translators', 'diag.py'),
-                          os.path.join(REPO, 'src', 'runtime', 'logging.h'), os.path.join(GEN_DIR, 'Diag.lean')])
+            rc, out = self._generate([sys.executable, os.path.join(VERIF, 'translators', 'diag.py'),
+                                      os.path.join(REPO, 'src', 'runtime', 'logging.h')], os.path.join(GEN_DIR, 'Diag.lean'))
         return rc == 0, out
 
     def translate_statics(self):
@@ -169,7 +187,8 @@ class Ctx:
         os.makedirs(GEN_DIR, exist_ok=True)
         lib = os.path.join(os.path.dirname(self.vh()), 'libsqfvm_static.a')
         with Lock('gen'):
-            rc, out = sh([sys.executable, os.path.join(VERIF, 'translators', 'statics.py'), lib, os.path.join(GEN_DIR, 'Statics.lean')])
+            with Lock('build-rel'):       # the library is not being re-linked while nm reads it
+                rc, out = self._generate([sys.executable, os.path.join(VERIF, 'translators', 'statics.py'), lib], os.path.join(GEN_DIR, 'Statics.lean'))
         return rc == 0, out
 
     def translate_grammars(self):
@@ -180,8 +199,14 @@ class Ctx:
         with Lock('gen'):
             for sub, kindsrc, ns in (('sqf', 'astnode.hpp', 'SqfGrammar'), ('config', 'parser.tab.hh', 'CfgGrammar')):
                 d = os.path.join(REPO, 'src', 'parser', sub)
+                target = os.path.join(GEN_DIR, ns + '.lean')
+                tmp = '%s.tmp.%d' % (target, os.getpid())
                 rc, out = sh([sys.executable, os.path.join(VERIF, 'translators', 'lalr.py'), os.path.join(d, 'parser.tab.cc'),
-                              os.path.join(d, 'parser.tab.hh'), os.path.join(d, kindsrc), os.path.join(GEN_DIR, ns + '.lean'), ns])
+                              os.path.join(d, 'parser.tab.hh'), os.path.join(d, kindsrc), tmp, ns])
+                if rc == 0 and (not os.path.exists(target) or open(tmp, 'rb').read() != open(target, 'rb').read()):
+                    os.replace(tmp, target)
+                if os.path.exists(tmp):
+                    os.remove(tmp)
                 ok = ok and rc == 0
                 log += out
         return ok, log
